@@ -294,9 +294,18 @@ static int is_in_word_char(int ch)
 static bool convert_int(ts_parser_state_t *tpsp)
 {
     char *end;
+    long lvalue;
 
-    tpsp->u.tps_int = strtol(tpsp->tps_text, &end, 0);
-    return end > tpsp->tps_text && *end == '\000';
+    errno = 0;
+    lvalue = strtol(tpsp->tps_text, &end, 0);
+    if (!(end > tpsp->tps_text && *end == '\000')) {
+	return false;
+    }
+    if (errno == ERANGE || lvalue >= INT_MAX || lvalue <= INT_MIN) {
+	return false;
+    }
+    tpsp->u.tps_int = (int)lvalue;
+    return true;
 }
 
 /*
